@@ -1,5 +1,5 @@
-// C03_common.hh — shared by harness/C03.cc, C03_optypes.cc, C03_bswap.cc (one harness binary, three
-// translation units so they compile in parallel).  Everything lives in an anonymous namespace.
+// C03_common.hh — shared by all harness/C03*.cc (one harness binary, eight translation units so they
+// compile in parallel).  Everything lives in an anonymous namespace.
 #pragma once
 #include <math.h>
 #include <string.h>
@@ -206,6 +206,10 @@ C03_HOT inline void run_assign(Cell<W>& c, Order o, int op, T prior, T nv, Obs& 
   finish<W, T>(c, o, nv, nv, ret_w, ref_ok, false, ob);
 }
 
+// width of the type the built-in operators carry a T operand in (integral promotion: int for 8/16-bit T)
+template <class T>
+constexpr unsigned promoted_bits() { return sizeof(decltype(+T())) * 8; }
+
 template <class T, class D>
 C03_HOT inline bool binop_defined(int op, T a, D d) {
   if constexpr (std::is_floating_point_v<T>) {
@@ -242,7 +246,12 @@ C03_HOT inline bool binop_defined(int op, T a, D d) {
         }
         return true;
       case OP_SHL:
-      case OP_SHR: return d >= 0 && static_cast<uint64_t>(d) < sizeof(T) * 8;
+      case OP_SHR:
+        // [expr.shift]: undefined iff the count is negative or >= the width of the PROMOTED left operand
+        // (int for the 8/16-bit types: counts 8..31 / 16..31 are defined); C++20: a signed left operand of
+        // << yields the value congruent modulo 2^N, and the narrowing back to T is modular too, so every
+        // in-range count is compared for signed types as well
+        return d >= 0 && static_cast<uint64_t>(d) < promoted_bits<T>();
       default: return true;
     }
   }
@@ -568,6 +577,28 @@ void drive_block32(vf::Run& r, const char* wname, Order o) {
   t.flush(r, (std::string(wname) + "/").c_str());
 }
 
+// every shift count the native operator defines for a T left operand: 0 .. width of the promoted type - 1
+template <class T>
+std::vector<int> all_shift_counts_of() {
+  std::vector<int> v;
+  for (unsigned c = 0; c < promoted_bits<T>(); c++) v.push_back(static_cast<int>(c));
+  return v;
+}
+
+// every int 2^k-1, 2^k, 2^k+1 and its negative (k = 0..32) that `operands` does not contain yet
+inline void add_pow2_ints(std::vector<int>& operands) {
+  for (int k = 0; k <= 32; k++)
+    for (int dlt = -1; dlt <= 1; dlt++) {
+      uint32_t u = (k < 32 ? (1u << k) : 0u) + static_cast<uint32_t>(dlt);
+      for (uint32_t x : {u, 0u - u}) {
+        int v = static_cast<int>(x);
+        bool seen = false;
+        for (int y : operands) seen = seen || y == v;
+        if (!seen) operands.push_back(v);
+      }
+    }
+}
+
 template <class T>
 std::vector<T> int_operands() {
   std::vector<uint64_t> b = {0, 1, 2, 3, 7, 15, 0x7F, 0x80, 0xFF, 0x100, 0x7FFF, 0x8000, 0xFFFF};
@@ -596,6 +627,24 @@ std::vector<double> f64_specials() {
 }
 
 }  // namespace
+
+// 8-bit wrappers: the library has no aliases for them, but the class templates are instantiable
+// (bswap<uint8_t>/<int8_t> are specialised for exactly this) and their arithmetic is carried out in int.
+namespace {
+using le_uint8_t = little_endian<uint8_t>;
+using be_uint8_t = big_endian<uint8_t>;
+using re_uint8_t = reverse_endian<uint8_t>;
+using le_int8_t = little_endian<int8_t>;
+using be_int8_t = big_endian<int8_t>;
+using re_int8_t = reverse_endian<int8_t>;
+}  // namespace
+#define C03_W8(X)                       \
+  X(le_uint8_t, uint8_t, ORD_LE)        \
+  X(be_uint8_t, uint8_t, ORD_BE)        \
+  X(re_uint8_t, uint8_t, ORD_RE)        \
+  X(le_int8_t, int8_t, ORD_LE)          \
+  X(be_int8_t, int8_t, ORD_BE)          \
+  X(re_int8_t, int8_t, ORD_RE)
 
 #define C03_W16(X)                      \
   X(le_uint16_t, uint16_t, ORD_LE)      \
